@@ -315,6 +315,7 @@ def run(chk):
                        'Mesh operators: TLC enumerates block meshes x node numbering (contiguous, gaps, reversed, scattered) x element numbering x row order; for each the harness builds hexahedral, '
                        '6-tetrahedra-split and mixed meshes with perturbed nodes and 2 linear fields and checks gradient_3D, the least-squares gradient, surface detection and mesh mapping '
                        '(same points, interior points, a plane z = const). Non-trivial: hot-spot fields with >= 2 hot spots; mesh configurations with non-default numbering/order.')
+    chk.cov['rule'] += ' Also: interleaved rows on the regular grid, offset numbering, a second length unit (edges 2.4e-4), kept gradient accessors / kept mapper with a second source, hot-spot fields with non-positive maximum.'
     chk.cov['exhaustive'] = True
     chk.assumptions += ['gradient / mapping expectations are exact for linear fields; compared at 1e-9 / 1e-8',
                         'surface detection checked on unperturbed blocks (planar faces)']
